@@ -19,11 +19,22 @@ import (
 
 var c13Protos = []uint8{6, 17, 1, 0}
 
+var c13Fixed = time.FixedZone("X", 3600)
+
 func c13RowFromKey(ts string, key int, c [4]uint64) results.Row {
 	var t time.Time
 	if ts != "z" {
+		// a trailing letter gives the SAME instant another *time.Location (rows decoded from JSON of other
+		// hosts are UTC or carry a fixed offset): u = UTC, f = fixed zone +01:00
+		loc := time.Local
+		switch {
+		case strings.HasSuffix(ts, "u"):
+			loc, ts = time.UTC, strings.TrimSuffix(ts, "u")
+		case strings.HasSuffix(ts, "f"):
+			loc, ts = c13Fixed, strings.TrimSuffix(ts, "f")
+		}
 		v, _ := strconv.ParseInt(ts, 10, 64)
-		t = time.Unix(v, 0)
+		t = time.Unix(v, 0).In(loc)
 	}
 	return results.Row{
 		Labels:     results.Labels{Timestamp: t, Iface: fmt.Sprintf("eth%d", key%3)},
@@ -207,8 +218,14 @@ func c13Gen(r *Rand, tier string) []Case {
 			var bin int64 = -1
 			if !r.Chance(1, 15) {
 				t := base + r.I64n(3*s+1)
+				if r.Chance(1, 4) {
+					t = base + s*r.I64n(4) // exactly on a bin boundary
+				}
 				ts = strconv.FormatInt(t, 10)
 				bin = (t + s - 1) / s * s
+				if r.Chance(1, 3) {
+					ts += Pick(r, []string{"u", "f"}) // same instant, another location
+				}
 			}
 			key := r.Intn(nkeys)*7 + r.Intn(2)
 			k := fmt.Sprintf("%d/%d", bin, key)
@@ -233,7 +250,7 @@ func c13Gen(r *Rand, tier string) []Case {
 func init() {
 	register(&Prop{
 		ID:   "C13",
-		Rule: "seeded: BinTimestamp on aligned/off-by-one/random/negative timestamps x bin sizes (5m..7d, random multiples of 5m); CalcTimeBinSize on whole-second and arbitrary durations; BinTime on <=40 (thorough <=500) rows over <=12 keys within 3 bins; the same rows through Statement.PostProcess (binning, then row limit) with a limit between the number of rows after and before binning. Non-trivial: bints with ts>=0 not aligned; calc within the auto-size domain; bintime where at least two rows merge. Distinct = distinct case lines.",
+		Rule: "seeded: BinTimestamp on aligned/off-by-one/random/negative timestamps x bin sizes (5m..7d, random multiples of 5m); CalcTimeBinSize on whole-second and arbitrary durations; BinTime on <=40 (thorough <=500) rows over <=12 keys within 3 bins (1 in 4 timestamps exactly on a bin boundary, 1 in 3 in another *time.Location — UTC or a fixed offset — than the others); the same rows through Statement.PostProcess (binning, then row limit) with a limit between the number of rows after and before binning. Non-trivial: bints with ts>=0 not aligned; calc within the auto-size domain; bintime where at least two rows merge. Distinct = distinct case lines.",
 		Gen:  c13Gen,
 		Run:  c13Run,
 	})
